@@ -4,7 +4,7 @@ sys.path.insert(0, os.path.dirname(os.path.abspath(__file__)))
 
 def main():
     pid = sys.argv[1]; tier = sys.argv[2] if len(sys.argv) > 2 else "quick"
-    import check_simple, check_mdd
+    import check_simple, check_mdd, check_solve
     table = {
         "C17": lambda: check_simple.check_c17(tier),
         "C18": lambda: check_simple.check_c18(tier),
@@ -13,6 +13,13 @@ def main():
     }
     for d in ("C06", "C07", "C08", "C12", "C13", "C20"):
         table[d] = (lambda d=d: check_mdd.check_diagram(d, tier))
+    table["C01"] = lambda: check_solve.check_c01(tier, "C01")
+    table["C02"] = lambda: check_solve.check_c01(tier, "C02")
+    table["C09"] = lambda: check_solve.check_c01(tier, "C09")
+    table["C05"] = lambda: check_solve.check_cutoff(tier, "C05")
+    table["C19"] = lambda: check_solve.check_cutoff(tier, "C19")
+    table["C14"] = lambda: check_solve.check_c14(tier)
+    table["C15"] = lambda: check_solve.check_c15(tier)
     if pid not in table:
         print("unknown property " + pid); sys.exit(2)
     sys.exit(table[pid]())
